@@ -16,7 +16,7 @@ import multiprocessing as mp
 import os
 from collections import Counter
 
-from ..core import PKG, REPO, Ob, REFUTED
+from ..core import PKG
 from .. import dimtype
 
 LEVEL = "proof"
